@@ -256,6 +256,32 @@ impl Visitor for FreeVarsVisitor {
         self.free_vars_seen.insert(symbol.name.clone());
     }
 
+    fn visit_block(&mut self, block: &Block) {
+        // Names bound by a `let` in this block go out of scope at
+        // its closing brace.
+        self.local_bindings.push(FxHashSet::default());
+        for expr in &block.exprs {
+            self.visit_expr(expr);
+        }
+        self.local_bindings.pop();
+    }
+
+    fn visit_expr_try(
+        &mut self,
+        try_body: &ast::Block,
+        catch_sym: &ast::Symbol,
+        catch_body: &ast::Block,
+    ) {
+        self.visit_block(try_body);
+
+        let mut block_bindings = FxHashSet::default();
+        block_bindings.insert(catch_sym.name.clone());
+
+        self.local_bindings.push(block_bindings);
+        self.visit_block(catch_body);
+        self.local_bindings.pop();
+    }
+
     fn visit_expr_match(&mut self, scrutinee: &Expression, cases: &[(ast::Pattern, ast::Block)]) {
         self.visit_expr(scrutinee);
 
